@@ -32,9 +32,46 @@ fn val(r: &Option<Result<f64, spdcalc::SPDCError>>) -> Option<f64> {
   }
 }
 
+/// `schmidt_number<T: AsRef<[Complex<f64>]>>`: the array is handed over as `Vec`, as a slice, as `Box<[_]>` and as `&Vec`
+/// in turn (chosen by a content-independent counter: length + side effects free)
 fn call(v: &[C]) -> Option<Result<f64, spdcalc::SPDCError>> {
   let vv = v.to_vec();
-  guard(move || schmidt_number(vv))
+  match (v.len() + v.first().map_or(0, |z| (z.re.to_bits() >> 3) as usize & 3)) % 4 {
+    0 => guard(move || schmidt_number(vv)),
+    1 => guard(move || schmidt_number(&vv[..])),
+    2 => guard(move || schmidt_number(vv.into_boxed_slice())),
+    _ => guard(move || schmidt_number(&vv)),
+  }
+}
+
+/// The closed form the statement names, evaluated without an SVD: with A = |F| (element-wise magnitudes, row-major n×n) and
+/// M = AᵀA, Σσ² = tr M = ‖A‖_F² and Σσ⁴ = tr M² = ‖M‖_F², so K = (Σσ²)²/Σσ⁴ = (tr M)²/tr M². All terms are sums of
+/// non-negative numbers (no cancellation).
+fn formula(v: &[C], n: usize) -> f64 {
+  let a: Vec<f64> = v.iter().map(|z| z.re.hypot(z.im)).collect();
+  let mut tr = 0.0;
+  let mut tr2 = 0.0;
+  for j in 0..n {
+    for k in 0..n {
+      let mut g = 0.0;
+      for i in 0..n {
+        g += a[i * n + j] * a[i * n + k];
+      }
+      if j == k {
+        tr += g;
+      }
+      tr2 += g * g;
+    }
+  }
+  tr * tr / tr2
+}
+
+/// the array itself as a `key=value` token for small sides (replay by hand)
+fn arr_txt(v: &[C], n: usize) -> String {
+  if n > 3 {
+    return "-".into();
+  }
+  v.iter().map(|z| format!("{:e}{}{:e}i", z.re, if z.im.is_sign_negative() { "-" } else { "+" }, z.im.abs())).collect::<Vec<_>>().join(",")
 }
 
 fn relclose(a: f64, b: f64) -> bool {
@@ -81,6 +118,28 @@ pub fn run(ctx: &mut Ctx) {
     let n = ctx.rng.between(1, maxn);
     let kind = ctx.rng.below(10);
     case(ctx, n, kind);
+  }
+
+  // ---- exactly structured arrays (exactly real / imaginary parts, signs, integers, exact zeros, ±0.0)
+  // every 2×2 pattern of ±1 as an exactly real, an exactly imaginary and a real-or-imaginary array ([[1,1],[1,-1]] …)
+  for mask in 0..16usize {
+    for mode in 0..3usize {
+      let v: Vec<C> = (0..4).map(|k| {
+        let x = if mask >> k & 1 == 1 { -1.0 } else { 1.0 };
+        match mode { 0 => C::new(x, 0.0), 1 => C::new(0.0, x), _ => if k % 2 == 0 { C::new(x, -0.0) } else { C::new(0.0, x) } }
+      }).collect();
+      eval_case(ctx, "signs-2x2", 2, v, C::new(1.0, 0.0), false, false, mode == 0 && mask % 4 == 1);
+    }
+  }
+  for n in 1..=6usize {
+    for kind in 0..NEXACT {
+      exact_case(ctx, n, kind);
+    }
+  }
+  for _ in 0..ctx.n * 2 / 3 {
+    let n = ctx.rng.between(1, maxn);
+    let kind = ctx.rng.below(NEXACT);
+    exact_case(ctx, n, kind);
   }
 
   // ---- setup-level wrapper: square ranges, rectangular ranges with a square number of points
@@ -273,31 +332,303 @@ fn case(ctx: &mut Ctx, n: usize, kind: usize) {
   // absolute amplitude scale: the statement quantifies over every non-zero array and claims invariance
   // under any global complex factor, so two cases in three carry a factor log-uniform in 1e-30 … 1e+30
   // (σ⁴ and (Σσ²)² stay far inside the f64 range: ≤ 1e140)
-  let base = v;
   let c0 = match ctx.rng.below(3) {
     0 => C::new(1.0, 0.0),
     _ => C::from_polar(ctx.rng.log_range(1e-30, 1e30), ctx.rng.range(-3.2, 3.2)),
   };
+  // one case in three also goes through the exact variants (sign flips, quarter turns, conjugation, magnitudes)
+  let exact_variants = ctx.rng.below(3) == 0;
+  eval_case(ctx, name, n, v, c0, kind == 1, kind == 2 || kind == 3, exact_variants);
+}
+
+fn zero(r: &mut Rng) -> f64 {
+  if r.below(3) == 0 { -0.0 } else { 0.0 }
+}
+
+/// element-wise exact quarter turn z·iᵏ (component swaps and negations only: no rounding, zeros stay zeros)
+fn turn(z: C, k: usize) -> C {
+  match k % 4 {
+    0 => z,
+    1 => C::new(-z.im, z.re),
+    2 => C::new(-z.re, -z.im),
+    _ => C::new(z.im, -z.re),
+  }
+}
+
+const NEXACT: usize = 14;
+
+/// Exactly structured arrays: exactly real (signed), exactly imaginary, entries that are real or imaginary, integer-valued,
+/// Hadamard-like sign patterns, signed separable / diagonal / permutation / block patterns, sparse with exact (±0.0) zeros
+/// at the edges and in the centre, symmetric / Hermitian / antisymmetric / triangular arrays, a real model spectrum with
+/// negative side lobes — nothing here goes through `from_polar` or a complex product with a generic factor, so imaginary
+/// (or real) parts that are exactly ±0.0 stay so. The global factor is exact as well (±1, ±i, a power of two, a real or
+/// purely imaginary factor over the sixty decades; one case in six a generic complex one).
+fn exact_case(ctx: &mut Ctx, n: usize, kind: usize) {
+  let r = &mut ctx.rng;
+  let mut sep = false;
+  let mut eqd = false;
+  // how a real number x is embedded: 0 real (x, ±0), 1 imaginary (±0, x)
+  let emb = |r: &mut Rng, x: f64, how: usize| if how == 0 { C::new(x, zero(r)) } else { C::new(zero(r), x) };
+  let how = if r.below(4) == 0 { 1 } else { 0 };
+  let perm = |r: &mut Rng| {
+    let mut p: Vec<usize> = (0..n).collect();
+    for i in (1..n).rev() {
+      let j = r.below(i + 1);
+      p.swap(i, j);
+    }
+    p
+  };
+  let (name, v): (&str, Vec<C>) = match kind {
+    0 => ("real-signed", (0..n * n).map(|_| { let x = r.normal(); emb(r, x, 0) }).collect()),
+    1 => ("imag-signed", (0..n * n).map(|_| { let x = r.normal(); emb(r, x, 1) }).collect()),
+    2 => (
+      "mixed-real-imag",
+      (0..n * n)
+        .map(|_| {
+          let x = r.normal();
+          match r.below(5) {
+            0 | 1 => emb(r, x, 0),
+            2 | 3 => emb(r, x, 1),
+            _ => C::new(zero(r), zero(r)),
+          }
+        })
+        .collect(),
+    ),
+    3 => {
+      // integer-valued: real integers, Gaussian integers, or 0/±1 entries
+      let mode = r.below(3);
+      (
+        "integer",
+        (0..n * n)
+          .map(|_| {
+            let a = r.below(7) as f64 - 3.0;
+            let b = r.below(7) as f64 - 3.0;
+            match mode {
+              0 => emb(r, a, how),
+              1 => C::new(a, b),
+              _ => { let t = (r.below(3) as f64) - 1.0; emb(r, t, how) }
+            }
+          })
+          .collect(),
+      )
+    }
+    4 => {
+      // Hadamard-like sign pattern (-1)^popcount(i&j) (Sylvester's for n a power of two), or a random ±1 pattern, on magnitudes
+      // that are all equal / separable u_i·w_j / random
+      let mode = r.below(3);
+      let random_signs = r.below(3) == 0;
+      let m = r.log_range(1e-3, 1e3);
+      let u: Vec<f64> = (0..n).map(|_| r.unit() + 0.1).collect();
+      let w: Vec<f64> = (0..n).map(|_| r.unit() + 0.1).collect();
+      (
+        "sign-pattern",
+        (0..n * n)
+          .map(|k| {
+            let (i, j) = (k / n, k % n);
+            let neg = if random_signs { r.coin() } else { (i & j).count_ones() % 2 == 1 };
+            let mag = match mode {
+              0 => m,
+              1 => u[i] * w[j],
+              _ => r.unit() + 0.05,
+            };
+            emb(r, if neg { -mag } else { mag }, how)
+          })
+          .collect(),
+      )
+    }
+    5 => {
+      // signed separable: u ⊗ w with real signed u, w (sign pattern s_i·t_j) — K = 1
+      sep = true;
+      let u: Vec<f64> = (0..n).map(|_| r.normal()).collect();
+      let w: Vec<f64> = (0..n).map(|_| r.normal()).collect();
+      ("separable-real-signed", (0..n * n).map(|k| emb(r, u[k / n] * w[k % n], how)).collect())
+    }
+    6 => {
+      // (permuted) diagonal of equal magnitudes with signs ±m, exact zeros elsewhere — K = n
+      eqd = true;
+      let p = if r.coin() { (0..n).collect() } else { perm(r) };
+      let m = if r.coin() { 1.0 } else { r.log_range(1e-3, 1e3) };
+      (
+        "diagonal-equal-signed",
+        (0..n * n)
+          .map(|k| if p[k / n] == k % n { let x = if r.coin() { -m } else { m }; if r.below(4) == 0 { turn(emb(r, x, how), 1) } else { emb(r, x, how) } } else { C::new(zero(r), zero(r)) })
+          .collect(),
+      )
+    }
+    7 => {
+      // (permuted) diagonal of UNEQUAL signed entries, exact zeros elsewhere (formula: (Σd²)²/Σd⁴)
+      let p = if r.coin() { (0..n).collect() } else { perm(r) };
+      ("diagonal-unequal-signed", (0..n * n).map(|k| if p[k / n] == k % n { let x = r.normal() * r.log_range(1e-2, 1e2); emb(r, x, how) } else { C::new(zero(r), zero(r)) }).collect())
+    }
+    8 => {
+      // block diagonal: blocks of side 1–3, each a real signed block (2×2 blocks one time in two of the form [[a, b], [b, -a]])
+      let mut blk = vec![0usize; n];
+      let mut i = 0;
+      let mut b = 0;
+      while i < n {
+        let sz = r.between(1, 3).min(n - i);
+        for q in i..i + sz {
+          blk[q] = b;
+        }
+        i += sz;
+        b += 1;
+      }
+      let a0 = r.normal();
+      let b0 = r.normal();
+      let refl = r.coin();
+      (
+        "block-diagonal-signed",
+        (0..n * n)
+          .map(|k| {
+            let (i, j) = (k / n, k % n);
+            if blk[i] != blk[j] {
+              return C::new(zero(r), zero(r));
+            }
+            let first = (0..n).position(|q| blk[q] == blk[i]).unwrap();
+            let x = if refl { match (i - first, j - first) { (0, 0) => a0, (1, 1) => -a0, (0, 1) | (1, 0) => b0, _ => r.normal() } } else { r.normal() };
+            emb(r, x, how)
+          })
+          .collect(),
+      )
+    }
+    9 => {
+      // sparse with exact zeros: zero rows / columns at the edges, a zero centre (cross or block), the rest real signed
+      let (ra, rb, ca, cb) = (r.below(n / 3 + 1), r.below(n / 3 + 1), r.below(n / 3 + 1), r.below(n / 3 + 1));
+      let centre = r.below(3);
+      let (c_lo, c_hi) = (n / 3, n - n / 3);
+      (
+        "sparse-real-signed",
+        (0..n * n)
+          .map(|k| {
+            let (i, j) = (k / n, k % n);
+            let edge = i < ra || i + rb >= n || j < ca || j + cb >= n;
+            let mid = match centre {
+              0 => false,
+              1 => i >= c_lo && i < c_hi && j >= c_lo && j < c_hi,
+              _ => i == n / 2 || j == n / 2,
+            };
+            if (edge || mid) && n > 1 { C::new(zero(r), zero(r)) } else { let x = r.normal(); emb(r, x, how) }
+          })
+          .collect(),
+      )
+    }
+    10 => {
+      // symmetric real signed / antisymmetric real / Hermitian / upper triangular real signed
+      let mode = r.below(4);
+      let g: Vec<C> = (0..n * n).map(|_| C::new(r.normal(), r.normal())).collect();
+      (
+        ["symmetric-real", "antisymmetric-real", "hermitian", "triangular-real"][mode],
+        (0..n * n)
+          .map(|k| {
+            let (i, j) = (k / n, k % n);
+            let (lo, hi) = (i.min(j), i.max(j));
+            let z = g[lo * n + hi];
+            match mode {
+              0 => emb(r, z.re, how),
+              1 => if i == j { C::new(zero(r), zero(r)) } else { emb(r, if i < j { z.re } else { -z.re }, how) },
+              2 => if i == j { C::new(z.re, zero(r)) } else if i < j { z } else { z.conj() },
+              _ => if i <= j { emb(r, z.re, how) } else { C::new(zero(r), zero(r)) },
+            }
+          })
+          .collect(),
+      )
+    }
+    11 => {
+      // a real model spectrum: Gaussian pump envelope in (x + y) times sinc phase matching in (x − y)·a + (x + y)·b,
+      // `Complex::new(value, 0.)` — negative side lobes
+      let sp = r.range(0.5, 3.0);
+      let (a, b) = (r.range(0.5, 6.0), r.range(-1.0, 1.0));
+      let h = 2.0 / (n.max(2) - 1) as f64;
+      (
+        "real-model-spectrum",
+        (0..n * n)
+          .map(|k| {
+            let (x, y) = (-1.0 + h * (k / n) as f64, -1.0 + h * (k % n) as f64);
+            let t = a * (x - y) + b * (x + y);
+            let sinc = if t == 0.0 { 1.0 } else { t.sin() / t };
+            C::new((-(x + y) * (x + y) * sp).exp() * sinc, 0.0)
+          })
+          .collect(),
+      )
+    }
+    12 => {
+      // a few generic complex entries in an otherwise exactly real signed array (first / last / one random position)
+      let pos = [0, n * n - 1, r.below(n * n)][r.below(3)];
+      ("real-signed-one-complex", (0..n * n).map(|k| { let x = r.normal(); if k == pos { C::new(x, r.normal() * r.log_range(1e-18, 1.0)) } else { emb(r, x, 0) } }).collect())
+    }
+    _ => {
+      // checkerboard / stripes / circulant sign patterns on constant magnitude (rank-1 magnitudes: K = 1 by phase invariance)
+      let mode = r.below(3);
+      let m = r.log_range(1e-3, 1e3);
+      let sh = r.between(1, n.max(2) - 1);
+      (
+        "sign-lattice",
+        (0..n * n)
+          .map(|k| {
+            let (i, j) = (k / n, k % n);
+            let neg = match mode {
+              0 => (i + j) % 2 == 1 && (i * j) % 3 != 1,
+              1 => i >= j,
+              _ => (i + n - j) % n == sh % n,
+            };
+            emb(r, if neg { -m } else { m }, how)
+          })
+          .collect(),
+      )
+    }
+  };
+  // exact global factor
+  let mag = match ctx.rng.below(4) {
+    0 => 1.0,
+    1 => (2.0f64).powi(ctx.rng.between(0, 160) as i32 - 80),
+    2 => [2.0, 0.5, 3.0, 10.0, 0.1][ctx.rng.below(5)],
+    _ => ctx.rng.log_range(1e-30, 1e30),
+  };
+  let c0 = match ctx.rng.below(6) {
+    0 | 1 => C::new(mag, 0.0),
+    2 => C::new(-mag, 0.0),
+    3 => C::new(0.0, mag),
+    4 => C::new(0.0, -mag),
+    _ => C::from_polar(mag, ctx.rng.range(-3.2, 3.2)),
+  };
+  eval_case(ctx, name, n, v, c0, sep, eqd, true);
+}
+
+/// all clauses of the statement + the correspondence on `base · c0` and on its variants
+#[allow(clippy::too_many_arguments)]
+fn eval_case(ctx: &mut Ctx, name: &str, n: usize, base: Vec<C>, c0: C, separable: bool, equal_diagonal: bool, exact_variants: bool) {
   let v: Vec<C> = base.iter().map(|z| z * c0).collect();
   let decade = c0.norm().log10().floor() as i64;
   ctx.count(&format!("array/scale=1e{}", if c0.norm() == 1.0 { "0/unit".to_string() } else { format!("{:+}", (decade.div_euclid(10)) * 10) }));
   ctx.count(&format!("array/{}", name));
   ctx.count(&format!("array/side={}", if n <= 2 { n.to_string() } else if n <= 12 { "3-12".into() } else { "13+".into() }));
+  let all_real = v.iter().all(|z| z.im == 0.0);
+  let all_imag = v.iter().all(|z| z.re == 0.0);
+  ctx.count(if all_real && all_imag { "array/parts/all-zero" } else if all_real { "array/parts/exactly-real" } else if all_imag { "array/parts/exactly-imaginary" } else if v.iter().all(|z| z.re == 0.0 || z.im == 0.0) { "array/parts/each-entry-real-or-imaginary" } else { "array/parts/complex" });
+  if v.iter().any(|z| (z.re == 0.0 && z.re.is_sign_negative()) || (z.im == 0.0 && z.im.is_sign_negative())) {
+    ctx.count("array/has-negative-zero");
+  }
+  if all_real && v.iter().any(|z| z.re < 0.0) {
+    ctx.count("array/exactly-real-with-negative-entries");
+  }
   let res = call(&v);
   ctx.k("schmidt", &cxs(&v), &out(&res));
   let k0 = val(&res);
-  let det = format!("kind={} n={} scale={:e} K={:?} seedcase={}", name, n, c0.norm(), k0, ctx.seed);
+  let det = format!("kind={} n={} scale={:e} factor={:e}{:+e}i K={:?} seedcase={} arr={}", name, n, c0.norm(), c0.re, c0.im, k0, ctx.seed, arr_txt(&v, n));
   let nonzero = v.iter().any(|z| z.norm() > 0.0);
   if !nonzero {
     return;
   }
+  // K = (Σσ²)²/Σσ⁴ over the singular values of the element-wise magnitude matrix (closed form evaluated without SVD)
+  let f = formula(&v, n);
+  ctx.s("C11.formula", matches!(k0, Some(k) if relclose(k, f)), "schmidt/formula", &format!("{} formula={:e}", det, f));
   // bounds 1 ≤ K ≤ n
   let okb = matches!(k0, Some(k) if k >= 1.0 - TOL && k <= n as f64 * (1.0 + TOL));
   ctx.s("C11.bounds", okb, "schmidt/bounds", &det);
-  if kind == 1 {
+  if separable {
     ctx.s("C11.extremes", matches!(k0, Some(k) if (k - 1.0).abs() <= TOL), "schmidt/separable-one", &det);
   }
-  if kind == 2 || kind == 3 {
+  if equal_diagonal {
     ctx.s("C11.extremes", matches!(k0, Some(k) if relclose(k, n as f64)), "schmidt/equal-diagonal-n", &det);
   }
   // invariances
@@ -307,13 +638,37 @@ fn case(ctx: &mut Ctx, n: usize, kind: usize) {
   let scaled: Vec<C> = base.iter().map(|z| z * c).collect();
   let phased: Vec<C> = v.iter().map(|z| z * C::from_polar(1.0, r.range(-3.2, 3.2))).collect();
   let transposed: Vec<C> = (0..n * n).map(|k| v[(k % n) * n + k / n]).collect();
-  for (what, w) in [("scale", &scaled), ("phase", &phased), ("transpose", &transposed)] {
+  let mut variants: Vec<(&str, f64, Vec<C>)> = vec![("scale", c.norm(), scaled), ("phase", 1.0, phased), ("transpose", 1.0, transposed)];
+  if exact_variants {
+    // exact factor: real or purely imaginary, signed (an exactly real array stays exactly real or becomes exactly imaginary)
+    let m = match r.below(3) {
+      0 => [2.0, 0.5, 3.0, 1.0, 7.0][r.below(5)],
+      1 => (2.0f64).powi(r.between(0, 160) as i32 - 80),
+      _ => r.log_range(1e-30, 1e30),
+    };
+    let ce = match r.below(4) {
+      0 => C::new(m, 0.0),
+      1 => C::new(-m, 0.0),
+      2 => C::new(0.0, m),
+      _ => C::new(0.0, -m),
+    };
+    variants.push(("scale-exact", m, base.iter().map(|z| z * ce).collect()));
+    // element-wise phases that are exact: signs ±1, quarter turns iᵏ, conjugation, and removal of every phase (|z| + 0i)
+    variants.push(("phase-signs", 1.0, v.iter().map(|z| if r.coin() { -z } else { *z }).collect()));
+    variants.push(("phase-quarter-turns", 1.0, v.iter().map(|z| turn(*z, r.below(4))).collect()));
+    variants.push(("phase-conjugate", 1.0, v.iter().map(|z| z.conj()).collect()));
+    variants.push(("phase-removed", 1.0, v.iter().map(|z| C::new(z.norm(), 0.0)).collect()));
+  }
+  for (what, factor, w) in variants.iter() {
     let rr = call(w);
     ctx.k("schmidt", &cxs(w), &out(&rr));
     let ok = match (k0, val(&rr)) {
       (Some(a), Some(b)) => relclose(a, b),
       _ => false,
     };
-    ctx.s("C11.invariance", ok, &format!("schmidt/invariant-{}", what), &format!("{} factor={:e} after={:?}", det, if what == "scale" { c.norm() } else { 1.0 }, val(&rr)));
+    ctx.s("C11.invariance", ok, &format!("schmidt/invariant-{}", what), &format!("{} factor={:e} after={:?} arr_after={}", det, factor, val(&rr), arr_txt(w, n)));
+    // the formula clause on the variant as well (it is a non-zero square array in its own right)
+    let fw = formula(w, n);
+    ctx.s("C11.formula", matches!(val(&rr), Some(k) if relclose(k, fw)), &format!("schmidt/formula/{}-variant", what), &format!("{} after={:?} formula={:e} arr_after={}", det, val(&rr), fw, arr_txt(w, n)));
   }
 }
